@@ -1069,15 +1069,18 @@ impl ser::Serializer for ValueSerializer {
                 map: Table::new(),
                 next_key: None,
             },
+            datetime: false,
         })
     }
 
     fn serialize_struct(
         self,
-        _name: &'static str,
+        name: &'static str,
         len: usize,
     ) -> Result<Self::SerializeStruct, crate::ser::Error> {
-        self.serialize_map(Some(len))
+        let mut ser = self.serialize_map(Some(len))?;
+        ser.datetime = name == datetime::NAME;
+        Ok(ser)
     }
 
     fn serialize_struct_variant(
@@ -1399,6 +1402,8 @@ impl ser::SerializeStruct for SerializeMap {
 
 struct ValueSerializeMap {
     ser: SerializeMap,
+    /// the struct is `toml_datetime`'s private one: `end` yields the date-time, not a table
+    datetime: bool,
 }
 
 impl ser::SerializeMap for ValueSerializeMap {
@@ -1437,6 +1442,16 @@ impl ser::SerializeStruct for ValueSerializeMap {
     }
 
     fn end(self) -> Result<Value, crate::ser::Error> {
+        if self.datetime {
+            return match self.ser.map.get(datetime::FIELD) {
+                Some(Value::String(s)) => s
+                    .parse::<Datetime>()
+                    .map(Value::Datetime)
+                    .map_err(ser::Error::custom),
+                Some(_) => Err(ser::Error::custom("a serialized date was invalid")),
+                None => Err(crate::ser::Error::unsupported_none()),
+            };
+        }
         ser::SerializeMap::end(self)
     }
 }
@@ -1516,6 +1531,7 @@ impl ValueSerializeVariant<ValueSerializeMap> {
                     map: Table::with_capacity(len),
                     next_key: None,
                 },
+                datetime: false,
             },
         }
     }
